@@ -103,7 +103,11 @@ func (e *Engine) verifyFunction(name string, spec *FuncSpec) (fc *FnCtx, err err
 				seen = append(seen, fmt.Sprintf("%s x%d", strings.TrimPrefix(k, "call:"), n))
 			}
 			sort.Strings(seen)
-			panic(bindError{msg: fmt.Sprintf("ghost %q is bound to %s %s #%d, which the function never reaches (calls seen: %s)", g.Name, g.Kind, g.Method, g.Ord, strings.Join(seen, ", "))})
+			// reported as a failed obligation of its own (not as a binding failure), so that the remaining
+			// obligations of the function are still generated and name what the missing call breaks
+			gs := &State{pc: tTrue, cells: map[cellKey]Val{}, heaps: map[string]Term{}}
+			fc.oblige(gs, "ghost", g.Name+":bound", tFalse, fn.Pos(), nil,
+				fmt.Sprintf("ghost %q is bound to %s %s #%d, which the function never reaches (calls seen: %s)", g.Name, g.Kind, g.Method, g.Ord, strings.Join(seen, ", ")))
 		}
 	}
 	// escaped panics
